@@ -35,6 +35,8 @@ def _leaf(fn):
 
 
 def run(ctx, obs):
+    from ..rules import sweeps
+    sweeps.run(ctx, obs, 'C15')
     mod = ctx.pyx.get(PYX)
     if mod is None:
         raise AnalysisError(f'{PYX} not found')
